@@ -6,11 +6,11 @@ from geom import snap_glyphset
 from ufo import build, rat
 
 ID = "C15"
-PROOF_FILES = ["Geom", "Reverse", "Render", "Flatten", "Propagate", "Propagate2", "Transform", "GoodCert", "C15"]
+PROOF_FILES = ["Geom", "Reverse", "Render", "Flatten", "Propagate", "Propagate2", "Transform", "GoodCert", "C15", "TotalGeom", "TotalFilters", "TotalFilters2", "Total"]
 THEOREM = ("Ufo2ft.C15.* (affine algebra, reversal laws, bake lemma, decompose/flatten render preservation, compensation; "
            "C15_transform / transform_convex / transform_all: the whole TransformationsFilter maps every included glyph exactly once; "
            "C15_propagate (+ _placed, _complete, _idempotent, _no_override): the whole PropagateAnchorsFilter satisfies holdsPropagate; "
-           "C15_propagateP / C15_propagate_promotion / promoteSplit_promotes / promoteSplit_raises: the mark-ligature promotion)")
+           "C15_propagateP / C15_propagate_promotion / promoteSplit_promotes / promoteSplit_raises: the mark-ligature promotion); TOTALITY (Props/Total*.lean): runFilter_*_ok, C15_decompose_total / _decomposeTransformed_total / _flatten_total / _transform_total / C15_propagate_total / _outcome / C15_propagate_idempotent_total, promoteSplit_error_iff - every filter returns a result on every well-formed closed glyph set; anchor propagation raises only Exception, only when a ligature-mark-named glyph has a component without bounds; the second run always exists")
 N = {"quick": 500, "thorough": 8000}
 RULE = ("random component graphs (depth<=4, shared bases, dyadic affine matrices incl. mirrors, shears, rotations, singular) with "
         "line/curve/qcurve contours on a 1/8 grid, x each filter in {decompose, decomposeTransformed, flatten, transformations, "
